@@ -4,6 +4,7 @@
 
 from .node import Node
 from .function_op import Statement
+from .operation import js_between_parentheses
 from typing import List, Optional, cast
 from ..util import code_indentation, vsprintf
 
@@ -31,8 +32,7 @@ class WindowTellOperation(Node):
     def generate_js(self, indentation: int, factory_method: bool) -> str: 
         op = cast(Node, self.operand)
         str_op: str = op.generate_js(0, factory_method)
-        if not str_op.startswith('('):
-            str_op = vsprintf("(%s)", str_op)
+        str_op = js_between_parentheses(op, str_op)
 
         code = vsprintf("with %s {\n", str_op)
         for st in self.statements:
